@@ -99,6 +99,9 @@ def value_sets(tier):
         # defaults twins declared AFTER the general rule (declaration order must not matter)
         "list": [(1, 10), (2, 10), (1, 5), (3, 7)], "k": ["en", "é", "a b"], "n": [1, 2, 10],
         "imm": [3, 5, 9],
+        # values equal to / different from falsy and truthy defaults
+        "zl": [0, 1, 2, 10], "z0": [0, 1, 2], "zf": [0.0, 1.0, 2.5, -0.0][:3], "zs": [0, 1, -1, 5],
+        "it": [(2, False), (2, True), (0, False), (0, True)], "e0": [(2, ""), (2, "x"), (0, ""), (0, "x")],
         "f": FLOATS, "sf": FLOATS + [-x for x in FLOATS] ,
         "any": ["a", "b"], "u": [U1, U2],
         "p": P, "pb": P, "pe": P[: len(P) // 2], "pp": P[:200],
@@ -195,6 +198,27 @@ def rules_defrev():
     ]
 
 
+def rules_falsy(rev=False):
+    """defaults around falsy values: a supplied 0 / 0.0 / False is a supplied value (Rule.suitable_for)."""
+    pairs = [
+        [Rule("/zl", endpoint="zl", defaults={"page": 1}), Rule("/zl/<int:page>", endpoint="zl")],
+        [Rule("/z0/", endpoint="z0", defaults={"page": 0}), Rule("/z0/<int:page>", endpoint="z0")],
+        [Rule("/zoom/", endpoint="zf", defaults={"z": 1.0}), Rule("/zoom/<float:z>/", endpoint="zf")],
+        [Rule("/zs/", endpoint="zs", defaults={"n": 1}), Rule("/zs/<int(signed=True):n>", endpoint="zs")],
+        [Rule("/items/<int:id>", endpoint="it", defaults={"archived": False}),
+         Rule("/archive/<int:id>", endpoint="it", defaults={"archived": True})],
+        [Rule("/e0/<int:id>", endpoint="e0", defaults={"tag": ""}), Rule("/e1/<int:id>", endpoint="e0", defaults={"tag": "x"})],
+    ]
+    out = []
+    for pr in pairs:
+        out += reversed(pr) if rev else pr
+    return out
+
+
+def rules_falsyrev():
+    return rules_falsy(True)
+
+
 def rules_subvar():
     return [Rule("/u/<v>", subdomain="<user>", endpoint="su"), Rule("/", endpoint="root")]
 
@@ -212,6 +236,8 @@ CONFIGS = {
                                     "any", "u", "p", "pb", "pe", "pp", "sm", "sd", "def", "defs",
                                     "m_default", "m_post", "m_put", "w", "wsub", "hi"]),
     "defrev": (rules_defrev, {}, ["list", "k", "n"]),
+    "falsy": (rules_falsy, {}, ["zl", "z0", "zf", "zs", "it", "e0"]),
+    "falsyrev": (rules_falsyrev, {}, ["zl", "z0", "zf", "zs", "it", "e0"]),
     "subvar": (rules_subvar, {}, ["su"]),
     "defsub": (rules_defsub, {"default_subdomain": "www"}, ["dx", "dy"]),
     "sorted": (rules_sorted, {"sort_parameters": True}, ["so"]),
@@ -241,6 +267,16 @@ def make_values(ep, v):
         return {"v": v, "w": 3}
     if ep == "list":
         return {"page": v[0], "per": v[1]}
+    if ep in ("zl", "z0"):
+        return {"page": v}
+    if ep == "zf":
+        return {"z": v}
+    if ep == "zs":
+        return {"n": v}
+    if ep == "it":
+        return {"id": v[0], "archived": v[1]}
+    if ep == "e0":
+        return {"id": v[0], "tag": v[1]}
     if ep == "pp":
         return {"v": "k", "w": v}
     if ep == "su":
@@ -259,6 +295,10 @@ CONVERSE_PATHS = {
                 "/pe/a/b/edit", "/pp/k/a/b", "/sub/m/a", "/def/", "/def/2", "/defs/", "/defs/é/"],
     "defrev": ["/list/", "/list/2/10", "/list/1/5", "/k/", "/k/é/", "/sub/n/", "/sub/n/2"],
     "fact": ["/e/a", "/tpl/", "/tpl/x", "/a1/a2/n/a", "/t/tp/a/b"],
+    "falsy": ["/zl", "/zl/0", "/z0/", "/z0/1", "/zoom/", "/zoom/0.0/", "/zs/", "/zs/0", "/items/0", "/archive/0",
+              "/e0/0", "/e1/0"],
+    "falsyrev": ["/zl", "/zl/0", "/z0/", "/z0/1", "/zoom/", "/zoom/0.0/", "/zs/", "/zs/0", "/items/0", "/archive/0",
+                 "/e0/0", "/e1/0"],
 }
 # what some of those paths must denote (rule factories have to pass templates / defaults / prefixes on)
 CONVERSE_EXPECT = {
@@ -268,6 +308,13 @@ CONVERSE_EXPECT = {
     ("defrev", "/list/"): ("list", {"page": 1, "per": 10}), ("defrev", "/sub/n/"): ("n", {"v": 1}),
     ("default", "/def/"): ("def", {"v": 1}), ("default", "/defs/"): ("defs", {"v": "en"}),
 }
+for _c in ("falsy", "falsyrev"):
+    CONVERSE_EXPECT.update({
+        (_c, "/zl/0"): ("zl", {"page": 0}), (_c, "/zl"): ("zl", {"page": 1}), (_c, "/z0/"): ("z0", {"page": 0}),
+        (_c, "/z0/1"): ("z0", {"page": 1}), (_c, "/zoom/0.0/"): ("zf", {"z": 0.0}), (_c, "/zs/0"): ("zs", {"n": 0}),
+        (_c, "/items/0"): ("it", {"id": 0, "archived": False}), (_c, "/archive/0"): ("it", {"id": 0, "archived": True}),
+        (_c, "/e0/0"): ("e0", {"id": 0, "tag": ""}), (_c, "/e1/0"): ("e0", {"id": 0, "tag": "x"}),
+    })
 
 
 def converse_from_path(m, path, script, scheme, cfg=None):
